@@ -292,6 +292,7 @@ CHECKS["C03"] = {
             {"run": "TestVfC03", "quick": 40, "thorough": 1200, "shards_quick": 8, "shards_thorough": 16, "timeout_quick": 600, "timeout_thorough": 3400, "shrinktime": "40s"},
             {"run": "TestVfC03WildcardUDP", "quick": 160, "thorough": 12000, "shards_quick": 4, "shards_thorough": 16, "timeout_thorough": 3400},
             {"run": "TestVfC03Pipelined", "quick": 160, "thorough": 6000, "shards_quick": 8, "shards_thorough": 16, "timeout_thorough": 3400},
+            {"run": "TestVfC03StoreStall", "quick": 4, "thorough": 160, "shards_quick": 4, "shards_thorough": 8, "timeout_thorough": 3400, "shrinktime": "30s"},
         ]},
     ],
     "assumptions": ["well-formed fake replies carry the lower-cased question they were asked, as real servers do", "clients keep their transport open until the response or 9 s"],
